@@ -357,13 +357,96 @@ def run_tensor(ctx: Ctx):
                         ctx.violation("correspondence", "tensor_times_gg differs from Lean model tge on a one-pixel image", case)
 
 
+def run_reused_operator(ctx: Ctx):
+    """the transform depends on the VALUE of g at the time of the call: a caller walks g, h, g h, g^T, ...
+    through ONE preallocated d x d work matrix (overwritten in place between the calls) and transforms images
+    of the same size; every result is judged by the same formula (Lean actSpec / reference action)"""
+    import jax.numpy as jnp
+    import ginjax.geometric as geom
+
+    plan = {1: [((4,), 0)], 2: [((2, 3), 1), ((3, 3), 0)], 3: [((2, 3, 4), 1), ((2, 2, 2), 0)]}
+    n_walk = 3 if ctx.tier == "quick" else 8
+    for d in (1, 2, 3):
+        ops = refs.signed_perms(d)
+        ident = np.eye(d, dtype=np.int64)
+        for dims, k in plan[d]:
+            for p in (0, 1):
+                for entry in ("fn", "gi", "mi"):
+                    work = np.zeros((d, d), dtype=np.int64)  # the caller's operator storage, reused
+                    walk = []
+                    for _ in range(n_walk):
+                        g = ops[int(ctx.rng.integers(1, len(ops)))]
+                        h = ops[int(ctx.rng.integers(1, len(ops)))]
+                        walk += [g, h, g @ h, g.T]
+                    walk += [ident, ops[-1]]
+                    flags = tuple(bool(b) for b in ctx.rng.integers(0, 2, size=d))
+                    for step, gv in enumerate(walk):
+                        gv = np.asarray(gv, dtype=np.int64)
+                        np.copyto(work, gv)
+                        ctx.hist("operator_storage", "reused work matrix")
+                        if entry == "fn":
+                            img = rand_img(ctx, dims, d, k, encode=(step % 2 == 0))
+                            check_functional(ctx, geom, jnp, d, dims, k, p, work, img,
+                                             f"operator passed in ONE reused work matrix (np.copyto between calls), "
+                                             f"walk step {step}, same-size calls before this one used "
+                                             f"{[mat_list(w) for w in walk[:step]][-2:]}")
+                            continue
+                        lead = () if entry == "gi" else (2,)
+                        img = ctx.rng.integers(-3, 4, size=lead + tuple(dims) + (d,) * k).astype(np.int64)
+                        name = "GeometricImage" if entry == "gi" else "MultiImage"
+                        case = {"entry": name + ".times_group_element", "D": d, "dims": list(dims), "k": k,
+                                "parity": p, "is_torus": list(flags), "leading": list(lead), "g": mat_list(gv),
+                                "image": jarr(img), "operator_storage": "one work matrix reused for the whole walk",
+                                "walk_so_far": [mat_list(w) for w in walk[: step + 1]]}
+                        ctx.case((entry + "-reused", d, list(dims), k, p, mat_list(gv), list(flags), step,
+                                  img.tobytes().hex()[:64]), not np.array_equal(gv, ident),
+                                 sample={k2: case[k2] for k2 in ("entry", "D", "dims", "k", "parity", "g",
+                                                                 "operator_storage")})
+                        ctx.hist("entry", name)
+                        try:
+                            if entry == "gi":
+                                out = geom.GeometricImage(jnp.array(img, dtype=jnp.float32), p, d, flags)
+                                out = out.times_group_element(work)
+                                impl, got_flags = to_int(out.data), tuple(out.is_torus)
+                            else:
+                                out = geom.MultiImage({(k, p): jnp.array(img, dtype=jnp.float32)}, d, flags)
+                                out = out.times_group_element(work)
+                                impl, got_flags = to_int(out[(k, p)]), tuple(out.is_torus)
+                        except Exception as e:
+                            case["raised"] = repr(e)[:300]
+                            ctx.violation("oracle", name + ".times_group_element raised on a valid input", case)
+                            continue
+                        if not np.array_equal(work, gv):
+                            ctx.violation("oracle", name + ".times_group_element modified the caller's operator", case)
+                            continue
+                        subs = [img] if entry == "gi" else list(img)
+                        spec = [model_tge(ctx, d, gv, p, s, "c02.act_spec") for s in subs]
+                        for s, sp in zip(subs, spec):
+                            if not np.array_equal(refs.act(s, d, p, gv), sp):
+                                ctx.violation("correspondence", "harness reference action differs from Lean actSpec", case)
+                        want = spec[0] if entry == "gi" else np.stack(spec)
+                        bad = []
+                        if impl is None or impl.shape != want.shape or not np.array_equal(impl, want):
+                            bad.append("data is not det^p g^{(x)k} A(g^-1 x)")
+                        if got_flags != refs.transport(gv, flags):
+                            bad.append(f"is_torus {got_flags} != {refs.transport(gv, flags)}")
+                        if bad:
+                            case["problems"] = bad
+                            case["impl"] = None if impl is None else jarr(impl)
+                            case["expected"] = jarr(want)
+                            ctx.violation("oracle", name + ".times_group_element (operator in a reused work matrix): "
+                                          + "; ".join(bad), case)
+
+
 def run(ctx: Ctx):
     ctx.rule = (
         "d in {1,2,3}; spatial shapes incl. extent 1, non-square and pairwise distinct extents; k in 0..3; "
         "both parities; all of B_1, B_2 and (quick) 5 three-cycles + 7 other elements of B_3 / (thorough) all 48; "
         "position-encoded and random integer images; laws on all (g,h) pairs of B_1, B_2 and 60 (quick) / all 2304 "
         "(thorough) pairs of B_3; GeometricImage and MultiImage entry points with random flags and 0-2 leading axes; "
-        "the single-tensor entry point tensor_times_gg for k in 0..3 (= the action on a one-pixel image). "
+        "the single-tensor entry point tensor_times_gg for k in 0..3 (= the action on a one-pixel image); "
+        "walks g, h, g h, g^T, ..., 1 through ONE reused d x d operator work matrix (overwritten in place between "
+        "calls, same image size) for all three entry points. "
         "Non-trivial: g is not the identity and the image is not constant (for pairs: both non-identity; for the "
         "multi-image entry point: at least one leading axis). Distinct = distinct (entry, d, shape, k, p, g, image)."
     )
@@ -373,4 +456,5 @@ def run(ctx: Ctx):
     run_single(ctx)
     run_tensor(ctx)
     run_entry_points(ctx)
+    run_reused_operator(ctx)
     run_laws(ctx)
